@@ -9,6 +9,7 @@ from . import c11
 LEVEL = 'exploration'
 SHARDED = True
 BUDGET_S = {'quick': 40, 'thorough': 300}
+CASE_CPU_LIMIT_S = None     # a case is a block of up to thousands of scheduled executions
 REQUIRED = {'all': ['oracle.schedules_judged', 'sched.lomond_line_yield_points', 'sched.context_switches',
                     'explore.dfs_schedules', 'explore.random_schedules', 'oracle.close_frames_seen', 'oracle.losing_sends_raised']}
 RULE = ('programs: close() || send_text; close() || close(); close() || send_ping || send_binary; event loop echoing '
